@@ -7,6 +7,7 @@ one program to every rule (positions are kept, so reports still point at the ori
   a > b, a >= b                    -> b < a, b <= a          (one comparison operator)
   c == x / c != x (c a literal)    -> x == c / x != c;  two non-literal operands of ==/!= are ordered by their text
   if not X: A else: B              -> if X: B else: A        (also inside elif chains)
+  if c: ...; return x  else: B     -> if c: ...; return x  followed by B   (no else after a branch that always leaves)
   Class(a, b)                      -> Class(p=a, q=b) for repository classes with their own __init__ (constructions are read by field name)
   if c: f = self.a else: f = self.b; r = f(x)   -> if c: r = self.a(x) else: r = self.b(x)   (a method value chosen, then called once)
   f(p=a, q=b) / f(a, q=b)          -> f(a, b) when the callee is certain (self.<method defined once in the class family>,
@@ -173,8 +174,28 @@ class Canon(ast.NodeTransformer):
         arms.append(cur.orelse)
         return arms
 
+    def _dedent_else(self, stmts):
+        """`if c: ...; return/raise/continue/break  else: B` -> the if without else, followed by B"""
+        i = 0
+        while i < len(stmts):
+            st = stmts[i]
+            if isinstance(st, ast.If) and st.orelse and st.body and isinstance(st.body[-1], (ast.Return, ast.Raise, ast.Continue, ast.Break)):
+                rest, st.orelse = st.orelse, []
+                stmts[i + 1:i + 1] = rest
+                self.counts["else-after-exit"] = self.counts.get("else-after-exit", 0) + 1
+            i += 1
+
     def visit_FunctionDef(self, node):
         self.generic_visit(node)
+        changed = True
+        while changed:
+            before = self.counts.get("else-after-exit", 0)
+            for n in ast.walk(node):
+                for field in ("body", "orelse", "finalbody"):
+                    b = getattr(n, field, None)
+                    if isinstance(b, list) and b and isinstance(b[0], ast.stmt):
+                        self._dedent_else(b)
+            changed = self.counts.get("else-after-exit", 0) != before
         for n in ast.walk(node):
             for field in ("body", "orelse", "finalbody"):
                 b = getattr(n, field, None)
